@@ -92,7 +92,7 @@ def fingerprintHostname (E : Env) (stripSfx : Bool) (hostname : Str) : Except Er
 def getFingerprintedHostname (E : Env) (hostOf : Str → Option Str) (inferRedirection stripSfx : Bool)
     (url : Str) : Except Err (Option Str) :=
   let u := if inferRedirection then infer url else url
-  match hostOf (ensureProtocol (strip u) "http".toList) with
+  match hostOf (ensureProtocol (strip (stripControl u)) "http".toList) with
   | none => .ok none
   | some h => if h.isEmpty then .ok none else (fingerprintHostname E stripSfx h).map some
 
